@@ -201,9 +201,11 @@ func (changes *Changes) Copy(dest string) error {
 	}
 
 	dirname := filepath.Base(changes.Filename)
-	err := internal.Copy(changes.Filename, dest+"/"+dirname)
+	if err := internal.Copy(changes.Filename, dest+"/"+dirname); err != nil {
+		return err
+	}
 	changes.Filename = dest + "/" + dirname
-	return err
+	return nil
 }
 
 // Move the .changes file and all referenced files to the directory
@@ -230,9 +232,11 @@ func (changes *Changes) Move(dest string) error {
 	}
 
 	dirname := filepath.Base(changes.Filename)
-	err := os.Rename(changes.Filename, dest+"/"+dirname)
+	if err := os.Rename(changes.Filename, dest+"/"+dirname); err != nil {
+		return err
+	}
 	changes.Filename = dest + "/" + dirname
-	return err
+	return nil
 }
 
 // Remove the .changes file and any associated files. This function will
